@@ -24,7 +24,9 @@ DESIGN_REF = "DESIGN.md section 3, C17"
 RULE = ("mode 'run': simulated `monkeytype run <script>` in-process - a generated script with its own __main__ functions calls a generated fixture package on disk "
         "(sometimes with a twin module: same source under two file names), pure-Python stdlib (json, textwrap) and site-packages (mypy_extensions) functions, under the "
         "default filter, the default filter with MONKEYTYPE_TRACE_MODULES allow-lists of 1..3 names, or a custom filter admitting a seeded subset; rows in the real "
-        "SQLite store are compared with the filter model. mode 'layout': the default filter is re-derived (monkeytype.config reloaded with sysconfig answering for a "
+        "SQLite store are compared with the filter model; the script also imports top-level modules named like substrings of '__main__' and compiles, calls and drops "
+        "functions at run time (rejected synthetic / accepted real file names alternating). mode 'defcfg': 2..4 sessions through monkeytype.trace() without a config while the "
+        "user's monkeytype_config module is absent / appears / is replaced between them. mode 'layout': the default filter is re-derived (monkeytype.config reloaded with sysconfig answering for a "
         "simulated deployment: stdlib / purelib / platlib roots, symlinks into and out of them, synthetic file names, relative paths, allow-lists) and queried with "
         "histories of code objects, including equal-but-not-identical ones, against an independent realpath oracle. non-trivial = at least one verdict / row was judged; "
         "distinct = distinct plan digests")
